@@ -620,7 +620,27 @@ impl<'r> Gen<'r> {
                         self.note("short-circuit");
                         let op = if self.rng.bool() { BinOp::AndAnd } else { BinOp::OrOr };
                         let a = self.gen_expr(&Ty::Bool, d);
-                        let b = self.gen_expr(&Ty::Bool, d);
+                        // the right operand sometimes is a bare comparison of a negated signed variable
+                        // (no arithmetic operator in sight, yet `-v` fails for v == MIN: it must stay
+                        // silent when the left operand decides)
+                        let mut b = None;
+                        if self.rng.chance(1, 4) {
+                            let signed = [ints::I8, ints::I16, ints::I32, ints::I64];
+                            let t = *self.rng.pick(&signed);
+                            let places = self.places_of(&Ty::Int(t));
+                            if !places.is_empty() {
+                                self.note("short-circuit-over-a-negated-variable");
+                                let v = self.rng.pick(&places).clone();
+                                let neg = e(ExprKind::Un(UnOp::Neg, Box::new(v)), Ty::Int(t));
+                                let other = if self.rng.bool() { lit_int(t, self.rng.below(3) as i128) } else { self.rng.pick(&places).clone() };
+                                let cmp = *self.rng.pick(&[BinOp::Gt, BinOp::Lt, BinOp::Eq, BinOp::Ne]);
+                                b = Some(e(ExprKind::Bin(cmp, Box::new(neg), Box::new(other)), Ty::Bool));
+                            }
+                        }
+                        let b = match b {
+                            Some(b) => b,
+                            None => self.gen_expr(&Ty::Bool, d),
+                        };
                         e(ExprKind::Bin(op, Box::new(a), Box::new(b)), Ty::Bool)
                     }
                     3 => {
